@@ -17,6 +17,10 @@ pub enum Op {
     Apply { n: usize },
     Reapply,
     Pos { ty: SeekTy },
+    /// keep a copy of the public `state` field (`Buffer: Clone`)
+    Snap,
+    /// put the copy back (`clone_from` or assignment): the stream continues where the copy was taken
+    Restore,
 }
 
 pub fn ops_to_string(ops: &[Op]) -> String {
@@ -30,6 +34,8 @@ pub fn ops_to_string(ops: &[Op]) -> String {
             Op::Apply { n } => s.push_str(&format!("A.{}", n)),
             Op::Reapply => s.push('R'),
             Op::Pos { ty } => s.push_str(&format!("P.{}", ty.name())),
+            Op::Snap => s.push('C'),
+            Op::Restore => s.push('B'),
         }
     }
     s
@@ -45,6 +51,8 @@ pub fn ops_from_string(s: &str) -> Vec<Op> {
                 "A" => Op::Apply { n: p[1].parse().unwrap() },
                 "R" => Op::Reapply,
                 "P" => Op::Pos { ty: SeekTy::from_name(p[1]) },
+                "C" => Op::Snap,
+                "B" => Op::Restore,
                 _ => panic!("bad op {}", t),
             }
         })
@@ -107,6 +115,7 @@ pub fn exec(cx: &mut Ctx, h: &Hist) {
     let mut pending = false; // last position change was a seek (lazy block not generated yet)
     let mut last: Option<(u128, Vec<u8>, Vec<u8>)> = None;
     let mut nops = 0u64;
+    let mut snap: Option<(Box<dyn core::any::Any>, u128, bool)> = None;
     'ops: for (i, op) in h.ops.iter().enumerate() {
         nops += 1;
         let st = if pending && pos % 64 != 0 {
@@ -121,6 +130,8 @@ pub fn exec(cx: &mut Ctx, h: &Hist) {
             Op::Apply { .. } => "apply",
             Op::Reapply => "reapply",
             Op::Pos { .. } => "pos",
+            Op::Snap => "snapshot",
+            Op::Restore => "restore",
         };
         cx.log.class(&format!("state={}/{}/{}/{}", st, region(layout, pos), lname, opk));
         cx.log.class(&format!("off={}/{}", pos % 64, st));
@@ -272,6 +283,28 @@ pub fn exec(cx: &mut Ctx, h: &Hist) {
                     }
                 }
             }
+            Op::Snap => match guarded(|| ci.snapshot()) {
+                Ok(b) => {
+                    snap = Some((b, pos, pending));
+                    cx.log.event("state_snapshots", 1);
+                }
+                Err(p) => {
+                    cx.log.panic_violation_ctx(&format!("{}|op=snapshot", sigp), &format!("op #{}", i), &p);
+                    break 'ops;
+                }
+            },
+            Op::Restore => {
+                if let Some((b, p0, pend0)) = snap.as_ref() {
+                    if let Err(p) = guarded(|| ci.restore(&**b, i % 2 == 0)) {
+                        cx.log.panic_violation_ctx(&format!("{}|op=restore", sigp), &format!("op #{}", i), &p);
+                        break 'ops;
+                    }
+                    pos = *p0;
+                    pending = *pend0;
+                    last = None;
+                    cx.log.event("state_restores", 1);
+                }
+            }
             Op::Pos { ty } => {
                 let fits = pos <= ty.max();
                 let r = if *ty == SeekTy::U128 && (i + h.kseed as usize) % 2 == 0 {
@@ -404,9 +437,11 @@ fn gen_ops(r: &mut Rng, layout: Layout, c11: bool, maxops: usize) -> Vec<Op> {
             pos = v;
         } else if k < 80 {
             // ---- apply
-            let mut n = match r.below(10) {
-                0..=4 => *r.pick(&lens),
-                5..=7 => r.below(200) as usize,
+            let mut n = match r.below(40) {
+                0..=19 => *r.pick(&lens),
+                20..=31 => r.below(200) as usize,
+                // now and then many KiB in one call
+                32 if !cfg!(miri) => 4096 * r.range(1, 9) as usize + [0usize, 1, 64, 255][r.below(4) as usize],
                 _ => r.below(1200) as usize,
             };
             // aim at the limit: end 1 short / exactly at / 1 past
@@ -423,8 +458,10 @@ fn gen_ops(r: &mut Rng, layout: Layout, c11: bool, maxops: usize) -> Vec<Op> {
             if pos + n as u128 <= limit {
                 pos += n as u128;
             }
-        } else if k < 88 {
+        } else if k < 87 {
             ops.push(Op::Reapply);
+        } else if k < 91 {
+            ops.push(if r.below(2) == 0 { Op::Snap } else { Op::Restore });
         } else {
             let ty = *r.pick(&SEEK_TYS);
             ops.push(Op::Pos { ty });
@@ -433,8 +470,145 @@ fn gen_ops(r: &mut Rng, layout: Layout, c11: bool, maxops: usize) -> Vec<Op> {
     ops
 }
 
+/// One `apply_keystream` call on more than 2^32 bytes ("arbitrary lengths"): the per-call length
+/// arithmetic must not truncate. The buffer starts as zeros, so afterwards it is the keystream;
+/// windows at the start, around every multiple of 2^32 bytes of the request, around the counter
+/// carry if the request crosses one, at the end and at 64 seeded places are compared with the
+/// reference, and the reported position must be pos + len. `over` = the request overshoots the
+/// IETF limit by that many bytes: it must be refused and leave the buffer untouched.
+pub struct HugeApply {
+    pub ty: &'static str,
+    pub kseed: u64,
+    pub pos: u128,
+    pub len: u64,
+}
+impl HugeApply {
+    pub fn desc(&self) -> String {
+        format!("huge=1 ty={} kseed={} pos={} len={}", self.ty, self.kseed, self.pos, self.len)
+    }
+}
+
+pub fn exec_huge(cx: &mut Ctx, c: &HugeApply) {
+    let (layout, drounds, nlen) = api::cipher_params(c.ty);
+    let (key, nonce) = key_nonce(c.kseed, nlen);
+    let mut rf = RefStream::new(layout, drounds, &key, &nonce);
+    let lname = if layout == Layout::Ietf { "ctr32" } else { "ctr64" };
+    let sigp = format!("{}|{}|{}", cx.prop, lname, api::profile());
+    let len = c.len as usize;
+    let expect_ok = c.pos + c.len as u128 <= rf.limit();
+    let mut data = vec![0u8; len]; // lazily zero-backed
+    let r = guarded(|| {
+        let mut ci = api::new_cipher(c.ty, &key, &nonce);
+        ci.try_seek(if c.pos > u64::MAX as u128 { SeekTy::U128 } else { SeekTy::U64 }, c.pos, false)?;
+        let r = ci.try_apply(&mut data);
+        Ok::<_, ()>((r, ci.try_pos(SeekTy::U128)))
+    });
+    cx.log.eval(1);
+    cx.log.event("bytes_in_single_apply_calls", c.len);
+    let (res, posr) = match r {
+        Err(p) => {
+            cx.log.panic_violation(&format!("{}|op=huge-apply", sigp), &p);
+            return;
+        }
+        Ok(Err(())) => {
+            cx.log.violation(&format!("{}|seek-rejected-in-range", sigp), &format!("seek to {} failed", c.pos));
+            return;
+        }
+        Ok(Ok(x)) => x,
+    };
+    // windows of the request to look at (relative offsets)
+    let mut wins: Vec<(usize, usize)> = vec![(0, 8192.min(len)), (len.saturating_sub(8192), len)];
+    let mut k = 1usize << 32;
+    while k < len {
+        wins.push((k - 4096, (k + 4096).min(len)));
+        k += 1usize << 32;
+    }
+    let e38 = 1u128 << 38;
+    let next_carry = (c.pos / e38 + 1) * e38;
+    if next_carry < c.pos + c.len as u128 {
+        let o = (next_carry - c.pos) as usize;
+        wins.push((o.saturating_sub(4096), (o + 4096).min(len)));
+    }
+    let mut wr = Rng::new(c.kseed ^ 0x1a96e);
+    for _ in 0..64 {
+        let o = wr.below(c.len) as usize;
+        wins.push((o, (o + 256).min(len)));
+    }
+    if !expect_ok {
+        if res.is_ok() {
+            cx.log.violation(&format!("{}|apply-ok-past-end", sigp), &format!("apply({}) at pos {} returned Ok past the end of the keystream", c.len, c.pos));
+            return;
+        }
+        for (a, b) in wins {
+            if data[a..b].iter().any(|&x| x != 0) {
+                cx.log.violation(&format!("{}|failed-apply-modified-data", sigp), &format!("apply({}) at pos {} failed but changed bytes {}..{} of the buffer", c.len, c.pos, a, b));
+                return;
+            }
+        }
+        cx.log.event("applies_err", 1);
+        return;
+    }
+    if res.is_err() {
+        cx.log.violation(&format!("{}|apply-err-in-range", sigp), &format!("apply({}) at pos {} returned Err inside the keystream", c.len, c.pos));
+        return;
+    }
+    let mut compared = 0u64;
+    for (a, b) in wins {
+        let mut e = vec![0u8; b - a];
+        rf.xor(c.pos + a as u128, &mut e);
+        if let Some(i) = first_diff(&data[a..b], &e) {
+            cx.log.violation(
+                &format!("{}|wrong-bytes", sigp),
+                &format!("one apply({}) at pos {}: byte {} (absolute {}) is {:02x}, reference {:02x}", c.len, c.pos, a + i, c.pos + (a + i) as u128, data[a + i], e[i]),
+            );
+            return;
+        }
+        compared += (b - a) as u64;
+    }
+    cx.log.event("bytes_compared", compared);
+    match posr {
+        Ok(v) if v as u128 == c.pos + c.len as u128 => cx.log.event("pos_ok", 1),
+        other => cx.log.violation(&format!("{}|current-pos-mismatch", sigp), &format!("after one apply({}) at pos {} the position reads {:?}", c.len, c.pos, other)),
+    }
+}
+
+fn huge_menu(c11: bool, thorough: bool) -> Vec<HugeApply> {
+    let g4 = 1u64 << 32;
+    let e38 = 1u128 << 38;
+    let mut v = Vec::new();
+    if c11 {
+        // ends exactly at the IETF limit / one byte past it
+        v.push(HugeApply { ty: "Ietf", kseed: 11, pos: e38 - (g4 + 77) as u128, len: g4 + 77 });
+        v.push(HugeApply { ty: "Ietf", kseed: 12, pos: e38 - (g4 + 5) as u128, len: g4 + 6 });
+        if thorough {
+            v.push(HugeApply { ty: "ChaCha8", kseed: 13, pos: (1u128 << 64) - 1 - (2 * g4 + 64) as u128, len: 2 * g4 + 64 });
+        }
+    } else {
+        // crosses a counter carry in the middle of the request
+        v.push(HugeApply { ty: "ChaCha20", kseed: 21, pos: 3 * e38 - (g4 / 2) as u128 - 19, len: g4 + 4096 + 3 });
+        if thorough {
+            v.push(HugeApply { ty: "Ietf", kseed: 22, pos: 64 * 5 + 7, len: g4 + 1 });
+            v.push(HugeApply { ty: "XChaCha12", kseed: 23, pos: 0, len: 2 * g4 + 300 });
+            v.push(HugeApply { ty: "ChaCha12", kseed: 24, pos: e38 - 100, len: g4 });
+        }
+    }
+    v
+}
+
 pub fn run(cx: &mut Ctx) {
     cx.selftest(crate::refmodel::T_CHACHA);
+    // the single calls on more than 4 GiB run once, in the optimised std build, on the first shards
+    if cx.arg("huge").map(|v| v == "1").unwrap_or(false) && !cfg!(miri) {
+        for (i, hc) in huge_menu(cx.prop == "C11", cx.thorough).into_iter().enumerate() {
+            if i as u64 % cx.nshards != cx.shard {
+                continue;
+            }
+            cx.log.announce(&hc.desc());
+            cx.log.nontrivial();
+            cx.log.class(&format!("single-apply-over-4GiB/{}", hc.ty));
+            exec_huge(cx, &hc);
+        }
+    }
     let c11 = cx.prop == "C11";
     let mut rng = cx.rng(if c11 { "C11" } else { "C02" });
     let levels = api::backend_levels();
@@ -460,6 +634,11 @@ pub fn run(cx: &mut Ctx) {
 pub fn replay(cx: &mut Ctx, desc: &str) {
     let d = Desc::parse(desc);
     let ty = api::CIPHERS.iter().find(|t| **t == d.str("ty")).expect("cipher type");
+    if d.get("huge").is_some() {
+        let c = HugeApply { ty, kseed: d.u64("kseed"), pos: d.u128("pos"), len: d.u64("len") };
+        cx.log.announce(&c.desc());
+        return exec_huge(cx, &c);
+    }
     let h = Hist { ty, fb: d.u64("fb") as u8, kseed: d.u64("kseed"), ops: ops_from_string(d.get("ops").unwrap_or("")) };
     cx.log.announce(&h.desc());
     exec(cx, &h);
